@@ -1,7 +1,7 @@
 (** POP state machine — the active chain is fully valid in every reachable state. *)
 From Coq Require Import List ZArith NArith Bool Lia Permutation.
 Import ListNotations.
-From VB Require Import Pop.SmDefs Pop.SmProofs Pop.SmWf Pop.SmTruth Pop.SmCmp Pop.SmCoh.
+From VB Require Import Pop.SmDefs Pop.SmProofs Pop.SmWf Pop.SmTruth Pop.SmCmp Pop.SmAll Pop.SmCoh.
 Local Open Scope Z_scope.
 
 Ltac dbind H :=
@@ -185,3 +185,103 @@ Proof.
     change (e_par (core b)) with (b_par ccmd b) in Ha. destruct (is_act_find _ _ Ha) as (pb & Fpb & _).
     destruct C as (_ & _ & _ & C2 & _). specialize (C2 _ _ _ Fb Hne Fpb). exists pb. split; [exact Fpb|lia].
 Qed.
+
+(** ** the tip is fully valid in every reachable state *)
+Definition tf (s : cst) : Prop := lvl_ge L_FULL (tip _ _ s) s.
+
+Lemma tf_setState : forall base s to s' ok, canon base s -> tf s -> c_setState s to = Ok (s', ok) -> tf s'.
+Proof.
+  intros base s to s' ok C T H. destruct (setState_outcome _ _ _ _ _ C H) as (_ & Ht & Hf). destruct ok.
+  - destruct (Ht eq_refl) as (Tp & _ & (b & Fb & Vb)). unfold tf. rewrite Tp. exists b. split; [exact Fb|].
+    unfold valid_upto in Vb. apply andb_prop in Vb. destruct Vb as [_ Vb]. apply N.leb_le. exact Vb.
+  - destruct (Hf eq_refl) as (Tp & _). unfold tf. rewrite Tp. eapply lvl_ge_setState; eassumption.
+Qed.
+
+Lemma tf_connect : forall s i par dup gs s', tf s -> c_connect s i par dup gs = Ok s' -> tf s'.
+Proof.
+  intros s i par dup gs s' (b & Fb & Hl) H. unfold c_connect, connect in H.
+  destruct (bfind (blocks pstate ccmd s) par) as [pb|]; [|discriminate].
+  destruct (bfind (blocks pstate ccmd s) i); [discriminate|]. inversion H; subst. unfold tf, lvl_ge. cbn [blocks tip with_blocks].
+  exists b. split; [apply find_app_some; exact Fb|exact Hl].
+Qed.
+
+Lemma winv_apply_range : forall s a b s' ok, winv s -> apply pstate ccmd cexec cunexec s a b = Ok (s', ok) -> winv s'.
+Proof. intros s a b s' ok. apply (Inv_apply_range pstate ccmd cexec cunexec winv winv_apply winv_unapply). Qed.
+Lemma winv_unapply_range : forall s a b s', winv s -> unapply pstate ccmd cunexec s a b = Ok s' -> winv s'.
+Proof. intros s a b s'. apply (Inv_unapply_range pstate ccmd cunexec winv winv_unapply). Qed.
+Lemma winv_uw : forall fuel s cur to pred s' w, winv s -> unapplyWhile pstate ccmd cunexec fuel s cur to pred = Ok (s', w) -> winv s'.
+Proof. intros fuel s cur to pred s' w. apply (Inv_unapplyWhile pstate ccmd cunexec winv winv_unapply). Qed.
+
+Lemma tf_compare : forall sc cr s c s' r,
+    quiet s -> scoh s -> tf s -> c_compare sc cr s c = Ok (s', r) -> tf s'.
+Proof.
+  intros sc cr s c s' r Q C T H. pose proof Q as (W & Ta & Hn).
+  destruct (Z_lt_le_dec r 0) as [Hneg|Hpos].
+  2:{ destruct (quiet_compare _ _ _ _ _ _ Q H) as (_ & _ & _ & Hp & _). destruct (Hp Hpos) as [Tp _].
+      unfold tf. rewrite Tp. eapply lvl_ge_compare; eassumption. }
+  unfold c_compare, compare in H.
+  destruct c as [c|]; [|inversion H; lia].
+  destruct (bfind (blocks pstate ccmd s) c) as [bc|] eqn:Fc; [|discriminate].
+  destruct (bfind (blocks pstate ccmd s) (tip pstate ccmd s)) as [bt|] eqn:Ft; [|discriminate].
+  destruct (is_failed ccmd bc); [inversion H; lia|].
+  destruct (N.eqb (tip pstate ccmd s) c) eqn:Etc; [inversion H; lia|].
+  destruct (on_active_chain pstate ccmd s c); [inversion H; lia|].
+  assert (Fork : compare_fork pstate ccmd cexec cunexec sc cr s c bc bt = Ok (s', r) -> tf s').
+  { intros HF. destruct (quiet_compare_fork _ _ _ _ _ _ _ _ Q HF) as (_ & _ & _ & _ & Htr).
+    destruct (Htr Hneg) as (fork & s1 & s2 & vf & s3 & s4 & E & E0 & E1 & E2 & -> & Hvf3 & Hn3 & F1 & F2 & F3 & Hvfork).
+    assert (WI1 : winv s1) by (eapply winv_apply_range; [split; eassumption|exact E]).
+    assert (WI2 : winv s2) by (eapply winv_uw; eassumption).
+    assert (WI3 : winv s3) by (eapply winv_unapply_range; eassumption).
+    assert (Lvf3 : lvl_ge L_FULL vf s3).
+    { destruct (uw_stop _ _ _ _ _ _ _ E0) as [Heq|(bw & Fbw & Hbw)].
+      - destruct (Hvfork Heq) as (k & Hk). rewrite Heq, Hk.
+        eapply lvl_ge_unapply_range; [|exact E1]. eapply lvl_ge_uw; [|exact E0]. eapply lvl_ge_apply_range; [|exact E].
+        apply chain_lvl; assumption.
+      - eapply lvl_ge_unapply_range; [|exact E1]. exists bw. split; [exact Fbw|].
+        unfold not_full in Hbw. apply negb_false_iff in Hbw. unfold valid_upto in Hbw. apply andb_prop in Hbw. apply N.leb_le. apply Hbw. }
+    assert (Lc4 : lvl_ge L_FULL c s4).
+    { eapply (apply_full s3 vf c s4 WI3 Hvf3 Lvf3); [|exact E2].
+      pose proof (fun j => frame_hgt _ _ j F3) as HS. rewrite (fr_root _ _ F3), ?HS. exact Hn3. }
+    exact Lc4. }
+  destruct (anc_at ccmd (blocks pstate ccmd s) _ c (b_h ccmd bt)) as [a|]; [|exact (Fork H)].
+  destruct (N.eqb a (tip pstate ccmd s)); [|exact (Fork H)].
+  dbind H. destruct a0 as [s1 ok]. destruct ok; inversion H; subst s' r; [|lia].
+  unfold tf. cbn [tip blocks]. eapply (apply_full s (tip _ _ s) c s1 (conj W C) Ta T Hn E).
+Qed.
+
+(** all invariants together, over every history *)
+Definition good (base : pstate) (s : cst) : Prop :=
+  quiet s /\ canon base s /\ scoh s /\ tf s /\ truthful base s.
+
+Lemma good_run : forall base ops s s', good base s -> run s ops = Ok s' -> good base s'.
+Proof.
+  induction ops as [|o r IH]; intros s s' G H; cbn in H.
+  - inversion H; subst. exact G.
+  - destruct (step_op s o) as [s1|] eqn:E; cbn in H; [|discriminate].
+    eapply IH; [|exact H]. destruct G as (Q & C & K & T & U).
+    destruct o as [i par dup gs|to|c sc cr]; cbn in E.
+    + split; [eapply quiet_connect; eassumption|]. split; [eapply canon_connect; eassumption|].
+      split; [eapply scoh_connect; eassumption|]. split; [eapply tf_connect; eassumption|].
+      eapply truthful_connect; [exact (proj1 Q)|exact U|exact E].
+    + destruct (c_setState s to) as [[s2 ok]|] eqn:E2; cbn in E; [|discriminate]. inversion E; subst.
+      split; [eapply quiet_setState; eassumption|]. split; [eapply canon_setState; eassumption|].
+      split; [eapply scoh_setState; eassumption|]. split; [eapply tf_setState; eassumption|].
+      eapply truthful_setState; eassumption.
+    + destruct (c_compare sc cr s c) as [[s2 rr]|] eqn:E2; cbn in E; [|discriminate]. inversion E; subst.
+      split; [eapply quiet_compare; eassumption|]. split; [eapply canon_compare; eassumption|].
+      split; [eapply scoh_compare; eassumption|]. split; [eapply tf_compare; eassumption|].
+      eapply SmAll.truthful_compare; eassumption.
+Qed.
+
+Lemma good_init : forall r h base, good base (c_init r h base).
+Proof.
+  intros r h base. split; [apply quiet_init|]. split; [split; cbn; [reflexivity|constructor; [intros []|constructor]]|].
+  split; [apply scoh_init|]. split.
+  - unfold tf, lvl_ge, c_init, init. cbn. rewrite N.eqb_refl. eexists. split; [reflexivity|cbn; lia].
+  - intros b [<-|[]] _. exists base. unfold depth, bgs, hgt, cores, c_init, init. cbn [blocks root map core b_id b_par b_h b_act cfind e_id fst snd].
+    rewrite N.eqb_refl. cbn [e_h snd fst]. rewrite Z.sub_diag. cbn [Z.to_nat anc_list map rev app].
+    unfold gs_of. cbn [blocks bfind b_id]. rewrite N.eqb_refl. reflexivity.
+Qed.
+
+Theorem reachable_good : forall base s, reachable base s -> good base s.
+Proof. intros base s (r & h & ops & R). eapply good_run; [apply good_init|exact R]. Qed.
